@@ -20,6 +20,9 @@ func c(k, acc, p string, ref int, t string) content {
 
 func acc(a string, cs ...content) step { return step{Act: "Accept", A: a, Cs: cs} }
 
+// accE: the identities inside the record in a non-canonical encoding
+func accE(enc, a string, cs ...content) step { return step{Act: "Accept", A: a, Cs: cs, Enc: enc} }
+
 func directedBehaviours() []*behaviour {
 	b1 := &behaviour{Spec: "AclChain/directed", Name: "directed1", Accounts: []string{"a", "b"}, Matrix: true,
 		Cfg: map[string]replicaCfg{
@@ -36,7 +39,7 @@ func directedBehaviours() []*behaviour {
 			{Act: "CatchUp", R: "r2", P: "r1", After: 1},                            // requester at the root
 			{Act: "Tamper", R: "r3", Kind: "gap", Other: 3, A: "o"},                 // r3 still at the root
 			{Act: "CatchUp", R: "r3", P: "r2", After: 1},                            // in-memory server, requester at the root
-			acc("a", c("RequestAccept", "b", "writer", 4, "")),                      // 5
+			accE("unknownField", "a", c("RequestAccept", "b", "writer", 4, "")),     // 5
 			{Act: "Tamper", R: "r1", Kind: "byte", A: "o"},
 			{Act: "Tamper", R: "r2", Kind: "acceptorSig", A: "o"},
 			{Act: "Tamper", R: "r3", Kind: "authorSig", A: "o"},
@@ -53,19 +56,19 @@ func directedBehaviours() []*behaviour {
 			{Act: "MigratedRestart", R: "r3", I: 2, J: 5},
 			acc("o", c("Invite", "", "writer", 0, "any")),                           // 7
 			acc("b", c("InviteJoin", "", "", 7, "")),                                // 8: the removed member joins again
-			acc("o", c("ReadKeyChange", "", "", 0, "")),                             // 9
+			accE("typeSpelled", "o", c("ReadKeyChange", "", "", 0, "")),             // 9: members listed under another encoding
 			// r1 (validating, at 5) gets records 6..9 followed by a correctly signed record on record 9 whose
 			// first content (revoke of invite 7) applies and whose second names nothing
 			{Act: "AddBatchTail", R: "r1", I: 6, J: 9, Kind: "unaccepted", A: "o", Via: "response",
 				Cs: []content{c("InviteRevoke", "", "", 7, ""), c("RequestDecline", "", "", 0, "")}},
 			{Act: "Bootstrap", R: "r2", P: "r1"},
-			acc("o", c("InviteRevoke", "", "", 7, ""), c("ReadKeyChange", "", "", 0, "")), // 10
+			accE("unknownField", "o", c("InviteRevoke", "", "", 7, ""), c("ReadKeyChange", "", "", 0, "")), // 10
 			acc("b", c("RequestRemove", "", "", 0, "")),                             // 11
 			{Act: "Tamper", R: "r1", Kind: "id", A: "o"},
 			{Act: "AddBatch", R: "r1", I: 4, J: 11},
 			{Act: "Tamper", R: "r1", Kind: "unaccepted", A: "o", Cs: []content{c("AccountRemove", "b", "", 0, ""), c("InviteRevoke", "", "", 0, "")}},
 			{Act: "Tamper", R: "r1", Kind: "unaccepted", A: "b", Cs: []content{c("Invite", "", "none", 0, "req")}},
-			acc("o", c("AccountRemove", "b", "", 0, "")),                            // 12
+			accE("typeSpelled", "o", c("AccountRemove", "b", "", 0, "")),            // 12
 			acc("o", c("Ownership", "a", "admin", 0, "")),                           // 13: a owns the space
 			acc("a", c("Options", "", "", 0, "")),                                   // 14
 			{Act: "CatchUp", R: "r2", P: "r1", After: 5},
@@ -92,9 +95,9 @@ func directedBehaviours() []*behaviour {
 			acc("b", c("RequestCancel", "", "", 6, "")),                             // 7
 			{Act: "CatchUp", R: "r1", P: "r2", After: 1},
 			{Act: "Tamper", R: "r1", Kind: "dup", Other: 2, A: "o"},
-			acc("a", c("AccountsAdd", "b", "reader", 0, "")),                        // 8
+			accE("typeSpelled", "a", c("AccountsAdd", "b", "reader", 0, "")),        // 8
 			acc("o", c("PermChange", "b", "writer", 0, ""), c("PermChange", "a", "writer", 0, "")), // 9
-			acc("o", c("PermChange", "a", "admin", 0, "")),                          // 10
+			accE("unknownField", "o", c("PermChange", "a", "admin", 0, "")),         // 10
 			acc("a", c("Invite", "", "reader", 0, "any")),                           // 11
 			acc("o", c("InviteChange", "", "writer", 11, "")),                       // 12
 			{Act: "AddBatchTail", R: "r3", I: 1, J: 11, Kind: "unaccepted", A: "o", Via: "headUpdate",
